@@ -611,6 +611,7 @@ fn mode_stress(eng: &Engine, report: &mut Report) {
 
     // ---- first use in fresh processes
     firstuse_phase(report, model, a.thorough());
+    rounds_phase(report, model, a.thorough());
 
     // ---- shapes under caller-assigned priorities: several threads run the same fixed-priority scenario at once; every
     // one of them must get exactly the shapes of the run alone (computed on this thread before any of them started)
@@ -692,8 +693,130 @@ fn mode_firstuse_child(threads: usize, draws: usize, sequential: bool) {
     }
 }
 
+/// many rounds in ONE process: every round releases `group` fresh threads from a spin barrier into their first node
+/// creation (the hand-out of per-thread state is exercised under contention hundreds of times, not once per process)
+fn mode_rounds_child(rounds: usize, group: usize, draws: usize, sequential: bool) {
+    let mut out: Vec<Vec<u32>> = Vec::new();
+    for _ in 0..rounds {
+        if sequential {
+            for _ in 0..group {
+                out.push(std::thread::spawn(move || draw_main(draws)).join().expect("child thread"));
+            }
+        } else {
+            let arrived = Arc::new(AtomicU64::new(0));
+            let hs: Vec<_> = (0..group)
+                .map(|_| {
+                    let arrived = arrived.clone();
+                    std::thread::spawn(move || {
+                        arrived.fetch_add(1, Ordering::SeqCst);
+                        while arrived.load(Ordering::SeqCst) < group as u64 {
+                            std::hint::spin_loop();
+                        }
+                        draw_main(draws)
+                    })
+                })
+                .collect();
+            for h in hs {
+                out.push(h.join().expect("child thread"));
+            }
+        }
+    }
+    for s in out {
+        let line: Vec<String> = s.iter().map(|x| x.to_string()).collect();
+        println!("STREAM {}", line.join(" "));
+    }
+}
+
+/// the binary the child processes run: `--child-exe <path>` (the unoptimised build) or this binary
+fn child_exe() -> Option<std::path::PathBuf> {
+    let args: Vec<String> = std::env::args().collect();
+    match args.iter().position(|a| a == "--child-exe").and_then(|i| args.get(i + 1)) {
+        Some(p) => Some(std::path::PathBuf::from(p)),
+        None => std::env::current_exe().ok(),
+    }
+}
+
+fn run_rounds_child(rounds: usize, group: usize, draws: usize, sequential: bool) -> Option<Vec<Vec<u32>>> {
+    let exe = child_exe()?;
+    let mut cmd = std::process::Command::new(exe);
+    cmd.arg("--mode").arg("rounds-child").arg("--rounds").arg(rounds.to_string()).arg("--workers").arg(group.to_string()).arg("--draws").arg(draws.to_string());
+    if sequential {
+        cmd.arg("--sequential").arg("yes");
+    }
+    let o = cmd.output().ok()?;
+    if !o.status.success() {
+        return None;
+    }
+    let text = String::from_utf8_lossy(&o.stdout);
+    let v: Vec<Vec<u32>> = text
+        .lines()
+        .filter_map(|l| l.strip_prefix("STREAM "))
+        .map(|rest| rest.split(' ').filter(|x| !x.is_empty()).map(|x| x.parse::<u32>().unwrap_or(0)).collect())
+        .collect();
+    if v.len() == rounds * group {
+        Some(v)
+    } else {
+        None
+    }
+}
+
+fn rounds_phase(report: &mut Report, model: SourceModel, thorough: bool) {
+    let (rounds, group, draws) = (if thorough { 1500 } else { 400 }, 16usize, 3usize);
+    if model == SourceModel::Unknown {
+        report.extra("simultaneous_rounds_subcheck", "not applicable: unknown priority source model");
+        return;
+    }
+    let seq = match run_rounds_child(rounds, group, draws, true) {
+        Some(s) => s,
+        None => {
+            report.inconclusive("simultaneous-rounds child process (sequential) failed");
+            return;
+        }
+    };
+    for attempt in 0..2 {
+        let got = match run_rounds_child(rounds, group, draws, false) {
+            Some(g) => g,
+            None => {
+                report.inconclusive("simultaneous-rounds child process failed");
+                return;
+            }
+        };
+        report.count("simultaneous_first_creation_rounds", rounds as u64);
+        let ok = match model {
+            SourceModel::Global => {
+                let (mut a, mut b): (Vec<u32>, Vec<u32>) = (got.iter().flatten().cloned().collect(), seq.iter().flatten().cloned().collect());
+                a.sort_unstable();
+                b.sort_unstable();
+                a == b
+            }
+            _ => {
+                let (mut a, mut b) = (got.clone(), seq.clone());
+                a.sort();
+                b.sort();
+                a == b
+            }
+        };
+        if !ok {
+            // which streams were handed out twice?
+            let mut sorted = got.clone();
+            sorted.sort();
+            let dup: Vec<&Vec<u32>> = sorted.windows(2).filter(|w| w[0] == w[1]).map(|w| &w[0]).take(3).collect();
+            report.violation(
+                "priority_stream_not_sequential:simultaneous_first_creations",
+                Json::obj()
+                    .set("what", "groups of 16 fresh threads released together into their first node creation (many rounds in one process) did not receive the streams the same program receives when the threads run one after another")
+                    .set("rounds", rounds)
+                    .set("attempt", attempt)
+                    .set("streams_handed_out_twice", Json::Arr(dup.iter().map(|s| Json::from(s.iter().map(|&x| x as u64).collect::<Vec<u64>>())).collect())),
+                vec!["--mode".into(), "stress".into()],
+            );
+            return;
+        }
+    }
+}
+
 fn run_firstuse_child(threads: usize, draws: usize, sequential: bool) -> Option<Vec<Vec<u32>>> {
-    let exe = std::env::current_exe().ok()?;
+    let exe = child_exe()?;
     let mut cmd = std::process::Command::new(exe);
     cmd.arg("--mode").arg("firstuse-child").arg("--workers").arg(threads.to_string()).arg("--draws").arg(draws.to_string());
     if sequential {
@@ -718,8 +841,14 @@ fn run_firstuse_child(threads: usize, draws: usize, sequential: bool) -> Option<
 }
 
 fn firstuse_phase(report: &mut Report, model: SourceModel, thorough: bool) {
-    let (threads, draws) = (4usize, 4usize);
-    let runs = if thorough { 1500 } else { 240 };
+    // four starters (three child processes at a time) and sixteen starters (one process at a time: a contention fall-back
+    // path needs many threads in the same instant)
+    firstuse_variant(report, model, 4, 3, if thorough { 1500 } else { 240 });
+    firstuse_variant(report, model, 16, 1, if thorough { 600 } else { 120 });
+}
+
+fn firstuse_variant(report: &mut Report, model: SourceModel, threads: usize, parallel: usize, runs: usize) {
+    let draws = 4usize;
     let seq = match (run_firstuse_child(threads, draws, true), run_firstuse_child(threads, draws, true)) {
         (Some(a), Some(b)) if a == b => a,
         (Some(_), Some(_)) => {
@@ -743,7 +872,7 @@ fn firstuse_phase(report: &mut Report, model: SourceModel, thorough: bool) {
     let next = AtomicU64::new(0);
     std::thread::scope(|sc| {
         // a few children at a time: the threads of one child must really run in parallel
-        for _ in 0..3 {
+        for _ in 0..parallel {
             sc.spawn(|| {
                 while next.fetch_add(1, Ordering::Relaxed) < runs as u64 {
                     let r = run_firstuse_child(threads, draws, false);
@@ -1108,6 +1237,9 @@ fn main() {
         }
         "reference-seq" => {
             mode_reference_seq(get("--ref-threads", "4").parse().unwrap(), get("--draws", "1000").parse().unwrap(), &get("--ref-out", "reference.bin"));
+        }
+        "rounds-child" => {
+            mode_rounds_child(get("--rounds", "10").parse().unwrap(), get("--workers", "16").parse().unwrap(), get("--draws", "3").parse().unwrap(), get("--sequential", "no") == "yes");
         }
         "firstuse-child" => {
             mode_firstuse_child(get("--workers", "4").parse().unwrap(), get("--draws", "4").parse().unwrap(), get("--sequential", "no") == "yes");
